@@ -265,6 +265,7 @@ BINOP_NAMES = {'Ge', 'Gt', 'Le', 'Lt', 'Eq', 'Ne', 'Add', 'Sub', 'Mul', 'Div', '
 @functools.lru_cache(maxsize=None)
 def c_rvalue(s):
     s = s.strip()
+    if s.startswith('&raw const (fake) ') or s.startswith('&raw mut (fake) '): return ('ref', c_place(s.split(' ', 3)[3]))
     if s.startswith('&raw const ') or s.startswith('&raw mut '): return ('ref', c_place(s.split(' ', 2)[2]))
     if s.startswith('&mut '): return ('ref', c_place(s[5:]))
     if s.startswith('&fake shallow '): return ('ref', c_place(s[14:]))
@@ -524,6 +525,19 @@ class Ctx:
 
 # ---------------------------------------------------------------- interpreter
 def zint(v): return v
+def generic_tail(callee):
+    """(start of the trailing `::<...>`, its inside) of a path, for any nesting depth; None when the path does not end with one"""
+    if not callee.endswith('>') or callee.endswith('->'): return None
+    depth = 0; i = len(callee) - 1
+    while i >= 0:
+        ch = callee[i]
+        if ch == '>' and not (i > 0 and callee[i - 1] == '-'): depth += 1
+        elif ch == '<':
+            depth -= 1
+            if depth == 0: break
+        i -= 1
+    if i < 2 or callee[i - 2:i] != '::': return None
+    return (i - 2, callee[i + 1:-1])
 def in_range(v, ty):
     lo, hi = INT_RANGE[ty]
     if isinstance(v, int): return lo <= v <= hi
@@ -913,9 +927,9 @@ class Interp:
         if callee in self.fns: return ('mir', self.fns[callee], None)
         r = models.resolve_special(self, callee)
         if r is not None: return r
-        gm = re.search(r'::<((?:[^<>]|<(?:[^<>]|<(?:[^<>]|<[^<>]*>)*>)*>)*)>$', callee)
-        base = callee[:gm.start()] if gm else callee
-        tys = [t.strip() for t in split_top(gm.group(1), ',') if not t.strip().startswith("'")] if gm else None
+        gt = generic_tail(callee)
+        base = callee[:gt[0]] if gt else callee
+        tys = [t.strip() for t in split_top(gt[1], ',') if not t.strip().startswith("'")] if gt else None
         if base in self.fns: return ('mir', self.fns[base], self.tysub(self.fns[base], tys))
         r = models.lookup(self, callee, base)
         if r is not None: return r
